@@ -27,7 +27,7 @@ fn mk_stack<const D: usize>(vals: &[[f64; N]; D]) -> Vec<Vec<f64>> {
 }
 
 fn any_vals<const D: usize>() -> [[f64; N]; D] {
-    kani::any()
+    nd()
 }
 
 fn any_ops() -> [Coor4D; N] {
@@ -35,7 +35,7 @@ fn any_ops() -> [Coor4D; N] {
 }
 
 fn any_index() -> usize {
-    let a: usize = kani::any();
+    let a: usize = nd();
     kani::assume(a >= 1 && a <= 4);
     a
 }
@@ -247,7 +247,7 @@ fn roll_step<const D: usize>(m: i64) {
     let mut stack = mk_stack::<D>(&vals);
     let ops0 = any_ops();
     let mut ops = ops0;
-    let n: i64 = kani::any();
+    let n: i64 = nd();
     kani::assume(m >= 1 && m <= 6);
     kani::assume(n > -m && n < m);
     let r = stack_roll(&mut stack, &mut ops, &[m, n]);
@@ -282,7 +282,7 @@ fn roll_step<const D: usize>(m: i64) {
 #[kani::proof]
 #[kani::unwind(9)]
 fn c12_roll_d0() {
-    roll_step::<0>(kani::any());
+    roll_step::<0>(nd());
 }
 
 // @harness c12_roll_d2_m1 prop=C12 tier=quick btree=no bound="depth 2, m=1, n symbolic |n|<m, contents all f64"
@@ -338,7 +338,7 @@ fn c12_roll_d4_m4() {
 #[kani::proof]
 #[kani::unwind(9)]
 fn c12_roll_d3_msym() {
-    roll_step::<3>(kani::any());
+    roll_step::<3>(nd());
 }
 
 // The document's own example rows, run through the real primitives (self-check of the
